@@ -185,6 +185,9 @@ func (s *Session) Do(op cs.Op) *Fail {
 	if r.Kind == "import" && r.Content != "" {
 		os.WriteFile(r.Path, []byte(r.Content), 0o644)
 	}
+	if r.FaultAt > 0 {
+		s.H.Deco.Arm(r.FaultAt, false)
+	}
 	var out *cs.Outcome
 	if r.Kind == "reopen" {
 		out = run.Guard(func(o *cs.Outcome) {
@@ -196,6 +199,11 @@ func (s *Session) Do(op cs.Op) *Fail {
 		out = run.Exec(s.H.DB, r)
 	}
 	s.Last = out
+	fired := false
+	if r.FaultAt > 0 {
+		fired = s.H.Deco.Fired
+		s.H.Deco.Disarm()
+	}
 	if strings.HasPrefix(out.Err, "panic") || out.Err == "hang" {
 		return &Fail{Property: "C20", Clause: "no-panic-no-hang", Detail: fmt.Sprintf("%s: %s", r.Kind, out.Err), Step: stepNo}
 	}
@@ -221,6 +229,24 @@ func (s *Session) Do(op cs.Op) *Fail {
 			}
 		}
 		s.Exports[r.Path] = snap
+	}
+	if fired {
+		// an injected store failure must surface as an error and the operation must then have no
+		// effect: the model is left as it is, and the comparisons of the following steps (and of the
+		// hooks below) see any trace it left
+		s.Facts["faults-fired"]++
+		if out.Err == "" {
+			return &Fail{Property: s.Property, Clause: "fault-swallowed", Detail: fmt.Sprintf("store call %d of the operation failed but it returned success  [op %s]", r.FaultAt, clip(op.String(), 1200)), Step: stepNo}
+		}
+		s.Prev = s.M.Clone()
+		s.Resynced = false
+		for _, h := range s.Hooks {
+			if f := h(s, r, out); f != nil {
+				f.Step = stepNo
+				return f
+			}
+		}
+		return nil
 	}
 	s.noteFacts(r, out)
 	if r.Kind == "reopen" && out.Err == "" && !run.OnDisk(s.Backend) {
